@@ -36,7 +36,7 @@ func (e *UExpr) render(names map[string]string, o RenderOpts) string {
 	case "path":
 		return e.Path.Render(names)
 	case "plus":
-		return e.Kids[0].render(names, o) + o.sp() + "+" + o.sp() + e.Kids[1].render(names, o)
+		return e.Kids[0].render(names, o) + o.tsp() + "+" + o.tsp() + e.Kids[1].render(names, o)
 	case "minus":
 		return e.Kids[0].render(names, o) + o.sp() + "-" + o.sp() + e.Kids[1].render(names, o)
 	case "ifne":
@@ -85,7 +85,7 @@ func (u *Update) Render(names map[string]string, o RenderOpts) string {
 			}
 			switch a.Kind {
 			case "SET":
-				parts = append(parts, a.Path.Render(names)+o.sp()+"="+o.sp()+a.RHS.render(names, o))
+				parts = append(parts, a.Path.Render(names)+o.tsp()+"="+o.tsp()+a.RHS.render(names, o))
 			case "REMOVE":
 				parts = append(parts, a.Path.Render(names))
 			case "ADD", "DELETE":
@@ -93,7 +93,7 @@ func (u *Update) Render(names map[string]string, o RenderOpts) string {
 			}
 		}
 		if len(parts) > 0 {
-			clauses = append(clauses, kw+o.sp()+strings.Join(parts, ","+o.sp()))
+			clauses = append(clauses, kw+o.sp()+strings.Join(parts, o.osp()+","+o.tsp()))
 		}
 	}
 	return strings.Join(clauses, o.sp())
